@@ -1,8 +1,9 @@
 import CTV.Model.Client
 import Mathlib.Tactic.Ring
+import Mathlib.Tactic.NormNum
 /-! Lemmas about the TLS fragments of `CTV.Client`: every decoder returns a value whose encoding is the input. -/
 namespace CTV.Client
-open CTV
+open CTV CTV.SigV
 set_option linter.unusedSimpArgs false
 
 theorem readUint_sound (w : Nat) (bs rest : Bytes) (n : Nat) (h : readUint w bs = some (n, rest)) :
@@ -219,5 +220,84 @@ theorem rawLogEntryFromLeaf_sound (li xd : Bytes) (e : RawEntry) (h : rawLogEntr
               simp
             · simp [hent]
           · simp at h
+
+theorem readUint_complete (w n : Nat) (rest : Bytes) (h : n < 256 ^ w) : readUint w (beEnc w n ++ rest) = some (n, rest) := by
+  unfold readUint
+  have hl : ¬ ((beEnc w n ++ rest).length < w) := by simp [beEnc_length]
+  simp only [hl, if_false]
+  rw [take_append_len _ _ _ (beEnc_length w n), drop_append_len _ _ _ (beEnc_length w n), beDec_beEnc w n h]
+
+theorem readOpaque_complete (w lo hi : Nat) (c rest : Bytes) (hw : hi < 256 ^ w) (hlo : lo ≤ c.length) (hhi : c.length ≤ hi) :
+    readOpaque w lo hi (writeOpaque w c ++ rest) = some (c, rest) := by
+  unfold readOpaque writeOpaque
+  rw [List.append_assoc, readUint_complete w c.length (c ++ rest) (by omega)]
+  have h1 : ¬ (c.length < lo ∨ c.length > hi) := by omega
+  have h2 : ¬ (c.length > (c ++ rest).length) := by simp
+  simp only [h1, h2, if_false]
+  simp
+
+/-- exactly the byte strings `hash ‖ algorithm ‖ uint16 length ‖ signature` are one DigitallySigned -/
+theorem dsExact_iff (bs : Bytes) (ds : DigitallySigned) :
+    dsExact bs = some ds ↔
+      ds.hash < 256 ∧ ds.sigAlg < 256 ∧ ds.sig.length ≤ 65535 ∧
+      bs = UInt8.ofNat ds.hash :: UInt8.ofNat ds.sigAlg :: writeOpaque 2 ds.sig := by
+  constructor
+  · intro h
+    unfold dsExact dsDecode at h
+    rcases bs with _ | ⟨a, _ | ⟨b, rest⟩⟩
+    · simp at h
+    · simp at h
+    simp only at h
+    cases ho : readOpaque 2 0 65535 rest with
+    | none => simp [ho] at h
+    | some v =>
+      obtain ⟨sig, r⟩ := v
+      simp only [ho] at h
+      rcases r with _ | ⟨y, r'⟩
+      · simp only [Option.some.injEq] at h
+        subst h
+        obtain ⟨e, _, hhi⟩ := readOpaque_sound _ _ _ _ _ _ ho
+        refine ⟨a.toNat_lt, b.toNat_lt, hhi, ?_⟩
+        simp [e]
+      · simp at h
+  · rintro ⟨h1, h2, h3, rfl⟩
+    unfold dsExact dsDecode
+    simp only
+    have := readOpaque_complete 2 0 65535 ds.sig [] (by norm_num) (by omega) h3
+    simp only [List.append_nil] at this
+    rw [this]
+    simp only [Option.some.injEq]
+    cases ds
+    simp only [DigitallySigned.mk.injEq, and_true]
+    simp only at h1 h2
+    exact ⟨by simp [UInt8.toNat_ofNat']; omega, by simp [UInt8.toNat_ofNat']; omega⟩
+
+/-- octets after a complete DigitallySigned are refused (`ToSignedTreeHead`, `addChainWithRetry`: "trailing data") -/
+theorem dsExact_trailing (bs t : Bytes) (ds : DigitallySigned) (h : dsExact bs = some ds) (ht : t ≠ []) :
+    dsExact (bs ++ t) = none := by
+  obtain ⟨_, _, h3, rfl⟩ := (dsExact_iff bs ds).mp h
+  unfold dsExact dsDecode
+  simp only [List.cons_append]
+  rw [readOpaque_complete 2 0 65535 ds.sig t (by norm_num) (by omega) h3]
+  rcases t with _ | ⟨y, t'⟩
+  · exact absurd rfl ht
+  · simp
+
+/-- a DigitallySigned cut short is refused -/
+theorem dsExact_truncated (bs : Bytes) (ds : DigitallySigned) (h : dsExact bs = some ds) (k : Nat) (hk : k < bs.length) :
+    dsExact (bs.take k) = none := by
+  cases hd : dsExact (bs.take k) with
+  | none => rfl
+  | some ds' =>
+    exfalso
+    have hx := dsExact_trailing (bs.take k) (bs.drop k) ds' hd (by
+      intro e
+      have := congrArg List.length e
+      simp at this
+      omega)
+    rw [List.take_append_drop] at hx
+    rw [h] at hx
+    cases hx
+
 
 end CTV.Client
